@@ -115,7 +115,7 @@ function trapResult(c){
   switch (c.trap){
   case "getPrototypeOf": return c.rkind === "obj" ? OBJ[c.ro] : c.rkind === "null" ? null : 5;
   case "getOwnPropertyDescriptor": return c.rkind === "undef" ? undefined : c.rkind === "nonobj" ? 5 : mkDesc(c.rdesc || {});
-  case "ownKeys": if (c.rkind === "nonobj") return 5;
+  case "ownKeys": if (c.rkind === "nonobj" || c.rkind === "gonil") return 5;
     var l = []; var rk = c.rkeys || []; for (var i = 0; i < rk.length; i++) l.push(rk[i] < 0 ? 5 : key(rk[i])); return l;
   case "get": case "apply": return val(c.rv|0);
   case "construct": return (c.rv|0) === 0 ? 5 : OBJ[c.rv];
@@ -258,6 +258,9 @@ func (e *env) goProxy(c LatCase) func(goja.FunctionCall) goja.Value {
 			cfg.HasIdx = func(*goja.Object, int) bool { called(); return res.ToBoolean() }
 			cfg.HasSym = func(*goja.Object, *goja.Symbol) bool { called(); return res.ToBoolean() }
 		case "get":
+			if c.Call.RKind == "gonil" {
+				res = nil
+			}
 			cfg.Get = func(*goja.Object, string, goja.Value) goja.Value { called(); return res }
 			cfg.GetIdx = func(*goja.Object, int, goja.Value) goja.Value { called(); return res }
 			cfg.GetSym = func(*goja.Object, *goja.Symbol, goja.Value) goja.Value { called(); return res }
@@ -272,6 +275,9 @@ func (e *env) goProxy(c LatCase) func(goja.FunctionCall) goja.Value {
 		case "ownKeys":
 			cfg.OwnKeys = func(*goja.Object) *goja.Object { called(); return asObj(res) }
 		case "apply":
+			if c.Call.RKind == "gonil" {
+				res = nil
+			}
 			cfg.Apply = func(*goja.Object, goja.Value, []goja.Value) goja.Value { called(); return res }
 		case "construct":
 			cfg.Construct = func(*goja.Object, []goja.Value, *goja.Object) *goja.Object { called(); return asObj(res) }
@@ -416,7 +422,7 @@ func coqCall(c CallSpec) string {
 	case "deleteProperty":
 		return fmt.Sprintf("(CDelete %s %s)", cN(c.K), cB(c.RB))
 	case "ownKeys":
-		if c.RKind == "nonobj" {
+		if c.RKind == "nonobj" || c.RKind == "gonil" {
 			return "(COwnKeys KNonObj)"
 		}
 		var es []string
@@ -560,20 +566,17 @@ type ModelCase struct {
 	Ops    []MOp      `json:"ops"`
 }
 
-var modelKeys = []int{1, 2, 5} // string keys only: own-key order is then insertion order, as in the model's list
+var modelKeys = []int{1, 2, 5, 4} // string keys and one symbol (Run.v normalises: symbols after strings)
 
 func modelGen(r *vh.Rng) ModelCase {
 	c := ModelCase{Kind: "model", Mode: []string{"reflect", "go"}[r.Pick(3, 1)], Layers: 1 + r.Pick(5, 3, 2)}
-	c.Target = TargetSpec{Ext: r.Chance(80), Proto: r.Intn(3), Props: []PropSpec{}}
+	c.Target = TargetSpec{Ext: r.Chance(65), Proto: r.Intn(3), Props: []PropSpec{}}
 	for _, k := range modelKeys {
 		switch r.Pick(3, 4, 3) {
 		case 1:
 			c.Target.Props = append(c.Target.Props, PropSpec{K: k, V: r.Intn(3), W: r.Bool(), E: r.Bool(), C: r.Bool()})
 		case 2:
 			g, s := r.Intn(2), 2*r.Intn(2)
-			if g == 0 && s == 0 {
-				g = 1 // F6c (open): an accessor without getter and setter is misreported through the proxy
-			}
 			c.Target.Props = append(c.Target.Props, PropSpec{K: k, Acc: true, G: g, S: s, E: r.Bool(), C: r.Bool()})
 		}
 	}
@@ -589,17 +592,22 @@ func modelGen(r *vh.Rng) ModelCase {
 	names := []string{"define", "get", "set", "has", "delete", "keys", "gopd", "prevext", "isext", "getproto", "setproto"}
 	n := 4 + r.Intn(20)
 	for i := 0; i < n; i++ {
-		op := MOp{O: names[r.Pick(14, 10, 12, 6, 8, 8, 12, 2, 3, 3, 4)], K: modelKeys[r.Intn(3)]}
+		op := MOp{O: names[r.Pick(14, 10, 12, 6, 8, 8, 12, 2, 3, 3, 4)], K: modelKeys[r.Intn(4)]}
 		switch op.O {
 		case "define":
 			d := &DescSpec{E: ob(), C: ob()}
-			switch r.Pick(6, 3, 3, 1) {
-			case 0: // data descriptors always carry a value (FC11-accstale, open: {writable} alone on an accessor)
-				d.Value, d.W = ip(r.Intn(3)), ob()
-			case 1: // accessor descriptors always carry a setter (FC11-symset, open: data -> getter-only accessor)
-				d.Set = ip(2)
+			switch r.Pick(6, 4, 3, 1) {
+			case 0:
+				d.W = ob()
+				if r.Chance(75) {
+					d.Value = ip(r.Intn(3))
+				}
+			case 1:
 				if r.Bool() {
 					d.Get = ip(r.Intn(2))
+				}
+				if r.Bool() || d.Get == nil {
+					d.Set = ip(2 * r.Intn(2))
 				}
 			case 3:
 				d.Value, d.Get = ip(1), ip(1)
